@@ -29,18 +29,26 @@ type sysScenario struct {
 }
 
 type sysConn struct {
-	Port  int
-	First string   // first word of the first segment (what the payload detector sees first)
-	Sends []string // lines sent, lock-step
+	Proto  string
+	Port   int
+	First  string   // first word of the first segment (what the payload detector sees first)
+	Sends  []string // lines sent, lock-step (tcp) / one datagram each (udp)
+	Routed string   // the service Honeytrap.tla's routing rule chooses ("none": nobody serves it)
 }
 
 var sysPlan = []sysConn{
-	{8080, "GET", []string{"GET /index.html HTTP/1.1\r\nHost: sys\r\n\r\n"}},
-	{8080, "alice", []string{"alice\r\n", "secret\r\n", "uname -a\r\n", "id\r\n"}},
-	{21, "USER", []string{"USER anonymous\r\n", "PASS anonymous\r\n", "PWD\r\n", "NOOP\r\n"}},
-	{6379, "*1", []string{"*1\r\n$4\r\nINFO\r\n", "*2\r\n$3\r\nGET\r\n$1\r\nk\r\n"}},
-	{7777, "PANIC", []string{"PANIC\n"}},
-	{8080, "GET", []string{"GET /second HTTP/1.1\r\nHost: sys\r\n\r\n"}},
+	{"tcp", 8080, "GET", []string{"GET /index.html HTTP/1.1\r\nHost: sys\r\n\r\n"}, "http"},
+	{"tcp", 8080, "alice", []string{"alice\r\n", "secret\r\n", "uname -a\r\n", "id\r\n"}, "telnet"},
+	{"tcp", 21, "USER", []string{"USER anonymous\r\n", "PASS anonymous\r\n", "PWD\r\n", "NOOP\r\n"}, "ftp"},
+	{"tcp", 6379, "*1", []string{"*1\r\n$4\r\nINFO\r\n", "*2\r\n$3\r\nGET\r\n$1\r\nk\r\n"}, "redis"},
+	{"tcp", 7777, "PANIC", []string{"PANIC\n"}, "boom"},
+	{"tcp", 8080, "GET", []string{"GET /second HTTP/1.1\r\nHost: sys\r\n\r\n"}, "http"},
+	// datagrams: echo is configured for udp/7 only; a tcp connection to port 7 and a datagram to the ftp port are nobody's
+	{"udp", 7, "hello", []string{"hello sys"}, "echo"},
+	{"tcp", 7, "hello", []string{"hello sys\r\n"}, "none"},
+	{"udp", 21, "USER", []string{"USER anonymous\r\n"}, "none"},
+	{"udp", 7, "again", []string{"again sys"}, "echo"},
+	{"tcp", 9999, "GET", []string{"GET / HTTP/1.1\r\n\r\n"}, "none"},
 }
 
 func sysTOML(sc sysScenario, logPath, ftpBase string) string {
@@ -54,6 +62,7 @@ func sysTOML(sc sysScenario, logPath, ftpBase string) string {
 	fmt.Fprintf(&b, "[service.ftp]\ntype=\"ftp\"\nfs_base=%q\n", ftpBase)
 	b.WriteString("[service.boom]\ntype=\"verif-stub\"\nname=\"boom\"\npanic_on=\"PANIC\"\n[[port]]\nport=\"tcp/7777\"\nservices=[\"boom\"]\n")
 	b.WriteString("[[port]]\nport=\"tcp/8080\"\nservices=[\"http\",\"telnet\"]\n[[port]]\nport=\"tcp/21\"\nservices=[\"ftp\"]\n[[port]]\nport=\"tcp/6379\"\nservices=[\"redis\"]\n")
+	b.WriteString("[service.echo]\ntype=\"echo\"\n[[port]]\nport=\"udp/7\"\nservices=[\"echo\"]\n")
 	q := func(xs []string) string {
 		out := []string{}
 		for _, x := range xs {
@@ -100,19 +109,21 @@ func sysRun(sc sysScenario) (lines []map[string]interface{}, fileLines []map[str
 		return nil, nil, err.Error()
 	}
 	defer srv.Stop()
-	type accepted struct {
-		src  string
-		line map[string]interface{}
-	}
 	srcOf := map[string]int{}
 	for i, pc := range sysPlan {
 		src := fmt.Sprintf("10.200.%d.%d", sc.ID%250, i+1)
+		srcOf[src] = i + 1
+		if pc.Proto == "udp" {
+			for _, s := range pc.Sends {
+				sendUDPWait(srv.mem, udpAddr("127.0.0.1", pc.Port), udpAddr(src, 4000+i), []byte(s), 2*time.Second)
+			}
+			hub.WaitQuiet(60*time.Millisecond, 2*time.Second)
+			continue
+		}
 		cl, err := srv.mem.DialTCP(tcpAddr("127.0.0.1", pc.Port), tcpAddr(src, 4000+i))
 		if err != nil {
 			return nil, nil, "dial: " + err.Error()
 		}
-		srcOf[src] = i + 1
-		mark := hub.Len()
 		r := bufio.NewReader(cl)
 		for _, s := range pc.Sends {
 			cl.Write([]byte(s))
@@ -128,16 +139,9 @@ func sysRun(sc sysScenario) (lines []map[string]interface{}, fileLines []map[str
 		cl.Close()
 		// one connection at a time: let its events arrive before the next one connects
 		hub.WaitQuiet(60*time.Millisecond, 2*time.Second)
-		_ = mark
 		if sc.LingerS > 0 && i == 2 {
 			time.Sleep(time.Duration(sc.LingerS) * time.Second)
 		}
-	}
-	// also a connection to a port nobody serves
-	if cl, err := srv.mem.DialTCP(tcpAddr("127.0.0.1", 9999), tcpAddr(fmt.Sprintf("10.200.%d.9", sc.ID%250), 4009)); err == nil {
-		cl.Write([]byte("GET / HTTP/1.1\r\n\r\n"))
-		time.Sleep(30 * time.Millisecond)
-		cl.Close()
 	}
 	hub.WaitQuiet(80*time.Millisecond, 2*time.Second)
 	all := hub.Since(0)
@@ -153,7 +157,11 @@ func sysRun(sc sysScenario) (lines []map[string]interface{}, fileLines []map[str
 	}
 	// accept lines first (connections are sequential, events of a connection follow its accept)
 	emittedAccept := map[int]bool{}
-	routed := []string{"http", "telnet", "ftp", "redis", "boom", "http"}
+	acceptLine := func(j int) map[string]interface{} {
+		pc := sysPlan[j-1]
+		return map[string]interface{}{"k": "accept", "svc": pc.Routed,
+			"c": map[string]interface{}{"proto": pc.Proto, "ip": "127.0.0.1", "port": pc.Port, "first": []string{pc.First}, "src": fmt.Sprintf("c%d", j)}}
+	}
 	for _, e := range all {
 		if e.Chan != "all" {
 			continue
@@ -180,9 +188,7 @@ func sysRun(sc sysScenario) (lines []map[string]interface{}, fileLines []map[str
 		for j := 1; j <= k; j++ {
 			if !emittedAccept[j] {
 				emittedAccept[j] = true
-				pc := sysPlan[j-1]
-				lines = append(lines, map[string]interface{}{"k": "accept", "svc": routed[j-1],
-					"c": map[string]interface{}{"proto": "tcp", "ip": "127.0.0.1", "port": pc.Port, "first": []string{pc.First}, "src": fmt.Sprintf("c%d", j)}})
+				lines = append(lines, acceptLine(j))
 			}
 		}
 		svc := map[string]interface{}{"k": "missing"}
@@ -207,13 +213,9 @@ func sysRun(sc sysScenario) (lines []map[string]interface{}, fileLines []map[str
 	}
 	for j := 1; j <= len(sysPlan); j++ {
 		if !emittedAccept[j] {
-			pc := sysPlan[j-1]
-			lines = append(lines, map[string]interface{}{"k": "accept", "svc": routed[j-1],
-				"c": map[string]interface{}{"proto": "tcp", "ip": "127.0.0.1", "port": pc.Port, "first": []string{pc.First}, "src": fmt.Sprintf("c%d", j)}})
+			lines = append(lines, acceptLine(j))
 		}
 	}
-	lines = append(lines, map[string]interface{}{"k": "accept", "svc": "none",
-		"c": map[string]interface{}{"proto": "tcp", "ip": "127.0.0.1", "port": 9999, "first": []string{"GET"}, "src": "c7"}})
 	lines = append(lines, map[string]interface{}{"k": "end"})
 	// the file channel: flush interval, then read back
 	time.Sleep(1300 * time.Millisecond)
